@@ -32,7 +32,7 @@ DOC = {
 }
 
 FS = 'dedupe::FsCommand::'
-SHELL_OP = [(r'^rm ', 'rm'), (r'^mv ', 'mv'), (r'^ln -s ', 'ln -s'), (r'^ln ', 'ln'), (r'^cp --reflink', 'cp-reflink'), (r'^cp -c ', 'cp-reflink'), (r'^cp ', 'cp')]
+SHELL_OP = [(r'^mkdir ', 'mkdir'), (r'^rm ', 'rm'), (r'^mv ', 'mv'), (r'^ln -s ', 'ln -s'), (r'^ln ', 'ln'), (r'^cp --reflink', 'cp-reflink'), (r'^cp -c ', 'cp-reflink'), (r'^cp ', 'cp')]
 
 
 def parse_snip(snip):
@@ -212,6 +212,16 @@ def r23(ctx):
             # `if A; then B; else C; fi`: A and B are the steps of the success path, C is what happens when A fails
             mm = re.match(r'^if (.*?); then (.*?); else (.*?); fi$', tmpl)
             parts = [(mm.group(1), 'step'), (mm.group(2), 'step'), (mm.group(3), 'rollback')] if mm else [(tmpl, 'step')]
+            # `A && B`: B is the next step of the success path; `A || B`: B is what happens when A fails
+            parts2 = []
+            for sub, kind in parts:
+                for chunk in sub.split(' && '):
+                    alts = chunk.split(' || ')
+                    parts2.append((alts[0], kind))
+                    for alt_ in alts[1:]:
+                        parts2.append((alt_, 'rollback'))
+            parts = parts2
+            conditional = bool(mm) or ' && ' in tmpl
             ai = 0
             for sub, kind in parts:
                 nph = len(re.findall(r'\{([a-z_][a-z0-9_]*)?\}', sub))
@@ -245,8 +255,19 @@ def r23(ctx):
             s_seq2.append(x)
             kept.append((o, r, c_))
         if var == 'Move':
-            # execute: [mv] when rename succeeded else [cp, rm]; shell: mv under use_rename else cp, rm
-            good = e_seq == [('mv', ['source', 'target']), ('cp', ['source', 'target']), ('rm', ['source'])] and s_seq2 == e_seq
+            # execute: [mv] when rename succeeded else [cp, rm]; shell: mv under use_rename else cp, rm (the directories are created first on both sides)
+            s_nomk = [x for x in s_seq2 if x[0] != 'mkdir']
+            good = e_seq == [('mv', ['source', 'target']), ('cp', ['source', 'target']), ('rm', ['source'])] and s_nomk == e_seq
+            # the target lies in a directory that does not exist yet (DIR/<full path of the source>): without `mkdir -p` cp and mv always fail, and bash goes on
+            # after a failing command: the removal of the source has to hang on the success of the copy, and a copy that cannot replace the source goes away
+            mk = [x for x in s_seq2 if x[0] == 'mkdir']
+            rb = [(o, r) for o, r, _ in rollbacks]
+            cp_lines = [c_ for (o, r, c_) in sops if o == 'cp']
+            cond_rm = bool(cp_lines) and any(re.match(r'^format!\(\s*"if .*cp .*; then rm ', c_.t.get('snip', ''), re.S) or re.search(r'cp [^;]*&& rm ', c_.t.get('snip', '')) for c_ in cp_lines)
+            ctx.check(len(mk) >= 1 and cond_rm and ('rm', ['target']) in rb, 'C11.R12', key + '|rolls-back', where,
+                      'Move: the script creates the directories, removes the source only after a successful copy, and removes a copy that cannot replace the source',
+                      'Move: the script is `cp SRC TGT` and `rm SRC` on two unconditional lines, without the `mkdir -p` that the real run does first: TGT is DIR/<full path of the source>, so cp always fails '
+                      'when the script is run as printed, bash goes on, and rm deletes every file that was to be moved - the script of `move --dry-run` to another disk moves nothing and removes all')
         else:
             good = e_seq == s_seq2
         where = sops[0][2].where() if sops else sh.where()
@@ -518,12 +539,19 @@ def r11b(ctx):
     if arms:
         sbb, am, other = arms[0]
         for v, tgt in am.items():
-            if v == 'RefLink' and tgt != other and arm_reaches(tgt, r'^std::fs::OpenOptions::open$|nix::unistd::(access|faccessat)$'):
-                # (an access() of the directory alone does not count: the probe has to be about the file - a write-mode open is)
-                reflink_probe = arm_reaches(tgt, r'^std::fs::OpenOptions::open$')
+            if v == 'RefLink' and tgt != other:
+                # a test of the FILE (not only of its directory): a helper of the arm that asks access(.., W_OK) about the path itself (no parent() on the
+                # way).  Really opening it for writing is not allowed on the dry-run path (C07.R2)
+                for c in cp.calls(r'^dedupe::FsCommand::check_\w+$'):
+                    if not (c.bb == tgt or c.bb in cp.reachable(tgt)):
+                        continue
+                    hb = lib.body(c.path)
+                    for k in (hb.calls(r'nix::unistd::(access|faccessat|eaccess)$') if hb is not None else []):
+                        if not backslice(hb, [k.args[0]]).has_call(r'path::Path::parent$'):
+                            reflink_probe = True
             if tgt != other and arm_reaches(tgt, r'nix::unistd::geteuid$|^libc::geteuid$|MetadataExt.*::uid$'):
                 owner_tested.add(v)
-    ctx.check(reflink_probe, rule, cp.path + '|RefLink|overwrite-predicted', cp.where(), 'a RefLink command is announced only if the duplicate can be opened for writing (probe open, nothing written)',
+    ctx.check(reflink_probe, rule, cp.path + '|RefLink|overwrite-predicted', cp.where(), 'a RefLink command is announced only if the duplicate is writable (access W_OK on the file itself)',
               'the lock step falls back to a read-only descriptor for files that cannot be opened for writing (D41, D52) - enough for remove / link / move, which need the directory only - but the Linux '
               '`dedupe` opens the duplicate for writing as its first step: for a 0444 file of the user, or a program being executed, `dedupe --dry-run` prints and counts the file and the real run '
               'fails with "Permission denied" / "Text file busy"')
@@ -533,6 +561,37 @@ def r11b(ctx):
               'write permission to the directory is not the whole rule for unlink / rename: in a sticky directory (/tmp, shared drwxrwxrwt folders) the caller must own the file or the directory (missing for: '
               '%s) - for every duplicate in /tmp that belongs to someone else --dry-run prints the command and counts the file, the real run fails with "Operation not permitted", and `move` copies the '
               'whole file first' % ', '.join(sorted(variants_ - owner_tested)))
+    # the lock step opens the file (for writing, else for reading): a file that allows neither (mode 000, a foreign 0600 file) is refused by the real run only,
+    # although remove / link / move need the directory alone - the generator knows whether locking is on
+    dd = lib.body('dedupe::dedupe')
+    lock_pred = False
+    if dd is not None:
+        for x in [dd] + [lib.body(c_) for c_ in lib.closures_of(dd.path)]:
+            probes = [c for c in x.calls(r'^dedupe::FsCommand::check_\w*lock\w*$')]
+            reads_flag = any('no_lock' in place_fields(pl) for blk in x.blocks for st in blk['stmts'] for pl in ([st['rv'].get('p')] if st['rv'].get('p') else [])) or \
+                any('no_lock' in backslice(x, [blk['term']['op']]).field_names() for blk in x.blocks if blk['term']['k'] == 'switch')
+            if probes and reads_flag:
+                pb = lib.body(probes[0].path)
+                lock_pred = pb is not None and bool(pb.calls(r'nix::unistd::(access|faccessat|eaccess)$'))
+    ctx.check(lock_pred, rule, 'dedupe::dedupe|lock-refusal-predicted', (dd.where() if dd else cp.where()), 'unless --no-lock is given, a file that can be opened neither for writing nor for reading is refused when the script is generated',
+              'FileLock::new needs to open the file (for writing; for a read-only file it falls back to reading): for a duplicate with mode 000 - or any file of another user without read permission - '
+              'both fail and the real run refuses remove / link / move ("Failed to open file ... for write"), which need only the directory; --dry-run lists and counts the file, and the printed '
+              'script removes it')
+    # ... nor at what else makes unlink(2) / link(2) refuse and is visible beforehand: an append-only DIRECTORY, an immutable retained file
+    cu = lib.body('dedupe::FsCommand::check_can_unlink')
+    dir_flag = cu is not None and any(backslice(cu, [a]).has_call(r'path::Path::parent$') for k in cu.calls(r'FsCommand::is_immutable$') for a in k.args)
+    tgt_flag = False
+    if arms:
+        sbb, am, other = arms[0]
+        tgt = am.get('HardLink')
+        if tgt is not None:
+            for c in cp.calls(r'^dedupe::FsCommand::check_\w+$'):
+                if (c.bb == tgt or c.bb in cp.reachable(tgt)) and 'target' in backslice(cp, c.args).field_names() and c.path in cg.bodies and \
+                        any(cg.bodies[k].calls(r'^libc::ioctl$') for k in cg.reachable([c.path])):
+                    tgt_flag = True
+    ctx.check(dir_flag and tgt_flag, rule, cp.path + '|attributes-of-directory-and-target', cp.where(), 'the append-only / immutable attribute is read from the directory of the dropped file and from the retained file of a hard link as well',
+              'the immutable / append-only test looks at the dropped file only: entries of a directory marked `chattr +a` can be created but not removed or renamed (access() says yes), and link(2) '
+              'refuses an immutable retained file - every operation says "Would process 1 files" in the dry run and "Processed 0 files" with EPERM in the real run')
     # every operation unlinks or renames away the file it drops: that takes write permission to ITS directory, which can be seen beforehand
     adt = lib.adts.get('dedupe::FsCommand')
     variants = {v['name'] for v in adt['variants']} if adt else all_arms
